@@ -39,8 +39,8 @@ CHECKS = {
         note="Process restart is simulated in-process (sys.modules/meta_path/caches purged); a seeded sample is cross-validated with real subprocesses in the thorough tier. Spy typecheckers are stubs."),
     "C11": dict(
         engine="hooksim", cat="exploration", technique="deterministic simulation of install/import/uninstall histories over a generated package forest with spy typecheckers; reference model of the instrumented set",
-        text="Seeded single-run histories (bytecode caching off) over look-alike package names, nested/overlapping hooks, with-blocks, double uninstall, pytest entry point; oracle: module instrumented iff covered by an active hook at first import, checker in the covering hooks' checkers, nothing instrumented after uninstall.",
-        note="IPython magic not driven (needs a live shell). Spy typecheckers are stubs; importlib and the hook are real."),
+        text="Seeded single-run histories (bytecode caching off) over look-alike package names, nested/overlapping hooks, with-blocks, double uninstall, pytest entry point, concurrent imports from 2-3 baton-scheduled threads, and notebook histories in a real in-process IPython shell (%load_ext, %jaxtyping.typechecker, defining cells, import cells); oracle: module instrumented iff covered by an active hook at first import, checker in the covering hooks' checkers, nothing instrumented after uninstall.",
+        note="The IPython magic is driven through an in-process InteractiveShell, not a Jupyter kernel. Spy typecheckers are stubs; importlib, IPython and the hook are real."),
     "C01": dict(
         engine="ctxsim", cat="exploration", technique="deterministic simulation: seeded check histories against an executable reference model of the dim-string semantics, step-wise refinement from the observed pre-state",
         text="Seeded histories of array checks (incl. rejected and raising ones) inside nested contexts; the model is re-synchronised from the observed bindings before each check and predicts an outcome set and post-state; implementation outcome must be in the set and bindings must equal the model's.",
